@@ -513,5 +513,35 @@ pub fn run(cases_path: &str, report_path: &str, opts: &[String]) {
         }
     }
     let _ = std::fs::remove_file(&tmp);
+    // the document's own view of its page tree (File::num_pages / get_page) after the page tree root was written through
+    // the same document: a page object is created, the root (object 5) updated to name it
+    for cached in [false, true] {
+        rep.execs += 1;
+        let probe = |cached: bool| -> std::result::Result<(), String> {
+            fn go<OC, SC>(mut f: pdf::file::File<Vec<u8>, OC, SC, pdf::file::NoLog>) -> std::result::Result<(), String>
+            where OC: Cache<pdf::error::Result<AnySync, Arc<PdfError>>>, SC: Cache<pdf::error::Result<Arc<[u8]>, Arc<PdfError>>> {
+                if f.num_pages() != 0 { return Err(format!("base document reports {} pages", f.num_pages())); }
+                let mut page = Dictionary::new();
+                page.insert("Type", Primitive::Name("Page".into()));
+                page.insert("Parent", Primitive::Reference(PlainRef { id: 5, gen: 0 }));
+                let pr = f.create(Primitive::Dictionary(page)).map_err(|e| format!("create: {}", e))?.get_ref().get_inner();
+                let mut root = Dictionary::new();
+                root.insert("Type", Primitive::Name("Pages".into()));
+                root.insert("Kids", Primitive::Array(vec![Primitive::Reference(pr)]));
+                root.insert("Count", Primitive::Integer(1));
+                f.update(PlainRef { id: 5, gen: 0 }, Primitive::Dictionary(root)).map_err(|e| format!("update: {}", e))?;
+                if f.num_pages() != 1 { return Err(format!("after the update of the page tree root num_pages() is {}", f.num_pages())); }
+                f.get_page(0).map_err(|e| format!("after the update get_page(0): {}", e))?;
+                Ok(())
+            }
+            let bytes = base_file(0, 0);
+            if cached { go(FileOptions::cached().load(bytes).map_err(|e| e.to_string())?) } else { go(FileOptions::uncached().load(bytes).map_err(|e| e.to_string())?) }
+        };
+        match guarded(|| probe(cached)) {
+            Outcome::Done(Ok(())) => {}
+            Outcome::Done(Err(e)) => rep.fail("ryw:front-door:pages", json!({"case": {"probe": "page tree root updated", "cached": cached}, "observed": e})),
+            Outcome::Panic(p) => rep.fail("panic:front-door:pages", json!({"case": {"probe": "page tree root updated", "cached": cached}, "observed": panic_json(&p)})),
+        }
+    }
     rep.write(report_path);
 }
